@@ -26,7 +26,63 @@ import keymaps  # noqa: E402
 
 LEVEL = "proof"
 
-MUTATION_DRILLS = []
+MUTATION_DRILLS = [
+ {
+  "mutation": "Session::OnCommit: commit_text_ = commit_text (assigns instead of appending)",
+  "ran": "scratch worktree /var/tmp/wt-eng at /repo HEAD + the mutation; VERIF_REPO=/var/tmp/wt-eng VERIF_CACHE=/var/tmp/rime-verif-eng bin/check C03 quick",
+  "exit": 1,
+  "printed": "VIOLATION property=C03 replay=replays/C03-quick-0.json",
+  "violation_keys": [
+   "lost-or-reordered:commit:stock",
+   "lost-or-reordered:commit:synth",
+   "lost-or-reordered:key:stock",
+   "lost-or-reordered:key:synth",
+   "lost-or-reordered:sel:stock",
+   "lost-or-reordered:sel:synth",
+   "lost-or-reordered:selp:stock",
+   "lost-or-reordered:selp:synth"
+  ]
+ },
+ {
+  "mutation": "RimeGetCommit: the session->ResetCommitText() call removed",
+  "ran": "scratch worktree /var/tmp/wt-eng at /repo HEAD + the mutation; VERIF_REPO=/var/tmp/wt-eng VERIF_CACHE=/var/tmp/rime-verif-eng bin/check C03 quick",
+  "exit": 1,
+  "printed": "VIOLATION property=C03 replay=replays/C03-quick-0.json",
+  "violation_keys": [
+   "read:getcommit:stock",
+   "read:getcommit:synth"
+  ]
+ },
+ {
+  "mutation": "Composition::GetCommitText: the trailing `result += input_.substr(end)` removed (preview and commit change together, so the property's own oracle still holds; caught by the model correspondence)",
+  "ran": "scratch worktree /var/tmp/wt-eng at /repo HEAD + the mutation; VERIF_REPO=/var/tmp/wt-eng VERIF_CACHE=/var/tmp/rime-verif-eng bin/check C03 quick",
+  "exit": 1,
+  "printed": "VIOLATION property=C03 replay=replays/C03-quick-0.json no-failing-input-found",
+  "violation_keys": [
+   "correspondence:synth"
+  ]
+ },
+ {
+  "mutation": "ConcreteEngine::OnSelect: seg.Close() removed (changes partial selections only, which the property does not constrain; caught by the model correspondence)",
+  "ran": "scratch worktree /var/tmp/wt-eng at /repo HEAD + the mutation; VERIF_REPO=/var/tmp/wt-eng VERIF_CACHE=/var/tmp/rime-verif-eng bin/check C03 quick",
+  "exit": 1,
+  "printed": "VIOLATION property=C03 replay=replays/C03-quick-0.json no-failing-input-found",
+  "violation_keys": [
+   "correspondence:synth"
+  ]
+ },
+ {
+  "mutation": "ConcreteEngine::OnCommit: text = ctx->input() instead of ctx->GetCommitText()",
+  "ran": "scratch worktree /var/tmp/wt-eng at /repo HEAD + the mutation; VERIF_REPO=/var/tmp/wt-eng VERIF_CACHE=/var/tmp/rime-verif-eng bin/check C03 quick",
+  "exit": 1,
+  "printed": "VIOLATION property=C03 replay=replays/C03-quick-0.json",
+  "violation_keys": [
+   "commit-is-not-preview:commit:synth",
+   "select-covering-rest:auto-commit:sel:synth",
+   "select-covering-rest:auto-commit:selp:synth"
+  ]
+ }
+]
 
 AUTO_COMMIT = {"synth_express": True, "synth_fluid": False, "luna_pinyin": True, "luna_pinyin_fluid": False,
                "cangjie5": True, "cangjie5_fluid": False}
